@@ -1017,6 +1017,18 @@ func (w *sysWorld) step(f []string) (res int, requeued bool) {
 			return 2, true
 		}
 		return 1, false
+	case "om": // om <labels> <0|1>: read-only query of orderedMatchingClusterCIDRs
+		if w.ctl == nil {
+			return 0, false
+		}
+		node := &corev1.Node{ObjectMeta: metav1.ObjectMeta{Name: "probe", Labels: parseLabels(f[1])}}
+		names, err := w.ctl.OrderedMatching(node, f[2] == "1")
+		if err != nil {
+			w.effects = append(w.effects, "order ERR")
+			return 2, false
+		}
+		w.effects = append(w.effects, "order "+joinOr(names, ",", "-"))
+		return 1, false
 	case "tick":
 		w.nq.tick()
 		w.cq.tick()
